@@ -96,6 +96,22 @@ SPEC_ENV = {"childfold": sp_childfold, "wsfold": sp_wsfold, "children_of": sp_ch
 AXIOMS = {}
 
 
+def sp_alleq(eng, st, seq, lo, label):
+    """every element of seq[lo:] equals the (optional) label: alleq(s, lo, x) == (lo >= len(s) or (s[lo] == x and alleq(s, lo+1, x)))"""
+    d = eng.decls
+    osort = label.t.sort
+    f = d.fun("alleq", [seq.t.sort, smt.INT, osort], smt.BOOL)
+    cur = f(seq.t, lo.t, label.t)
+    if "q_" not in lo.t.s:
+        lab_is = And(d.is_some(label.t), Eq(At(seq.t, lo.t), d.opt_val(label.t))) if isinstance(label.ty, TOpt) else Eq(At(seq.t, lo.t), label.t)
+        d.ground_axiom("alleq.def", Eq(cur, Or(Ge(lo.t, Len(seq.t)), And(Ge(lo.t, IntVal(0)), lab_is, f(seq.t, Add(lo.t, IntVal(1)), label.t)))))
+        d.ground_axiom("alleq.end", f(seq.t, Len(seq.t), label.t))
+    return V(BOOL, cur)
+
+
+SPEC_ENV["alleq"] = sp_alleq
+
+
 def build(reg):
     ref_fields = {("Scope", "name"): STR}
     ref_methods = {("Scope", "get_children"): ([BOOL], TSeq(TRef("Scope"))), ("Scope", "get_type"): ([], INT)}
@@ -131,10 +147,41 @@ def build(reg):
             ("fold", "matching_symbols == wsfold(tree_objs, tree_uris, query, filter_public, _k)")]),
                1: LoopSpec("for symbol in matching_symbols", index="_m", invariants=[("unreachable", "exact_match")])},
         short="find_in_workspace"))
+    # label-terminated DO loops: one labelled statement closes every open DO that names the label
+    def m_is_do(eng, st, node, args, kwargs):
+        return st.env["scope_type"]
+
+    def m_end_scope(eng, st, node, args, kwargs):
+        st.env["closed"] = V(INT, Add(st.env["closed"].t, IntVal(1)))
+        return NoneV()
+    m_end_scope.modifies = []
+
+    reg.add(Contract(
+        f"{PARSER}.FortranFile.parse_do_fixed_format", prop="C04", receiver_cls="FortranFile",
+        params={"line": STR, "ln": INT, "file_ast": TObj("FortranAST"), "line_label": TOpt(STR), "block_id_stack": TSeq(STR),
+                "scope_type": INT, "closed": INT},
+        result=BOOL, ghost={"constants": {"DO_TYPE_ID": 10}},
+        requires=[("none_closed_yet", "closed == 0")],
+        ensures=[("closes_all_sharing_the_label", "implies(scope_type == DO_TYPE_ID and line_label is not None, "
+                                                  "len(block_id_stack) == 0 or block_id_stack[-1] != line_label)"),
+                 ("one_scope_per_label", "closed == len(old(block_id_stack)) - len(block_id_stack)"),
+                 ("only_pops", "block_id_stack == old(block_id_stack)[:len(block_id_stack)]"),
+                 ("pops_only_this_label", "implies(len(block_id_stack) < len(old(block_id_stack)), line_label is not None) and "
+                                          "alleq(old(block_id_stack), len(block_id_stack), line_label)"),
+                 ("result", "result == (closed > 0)"),
+                 ("not_a_do", "implies(scope_type != DO_TYPE_ID or line_label is None, closed == 0)")],
+        calls={"file_ast.current_scope.get_type": m_is_do, "file_ast.end_scope": m_end_scope},
+        loops={0: LoopSpec("while len(block_id_stack) > 0 and line_label == block_id_stack[-1]", invariants=[
+            ("only_pops", "block_id_stack == old(block_id_stack)[:len(block_id_stack)]"),
+            ("count", "closed == len(old(block_id_stack)) - len(block_id_stack)"),
+            ("popped_label", "alleq(old(block_id_stack), len(block_id_stack), line_label)"),
+            ("flag", "did_close == (closed > 0)")],
+            variant="len(block_id_stack)")},
+        short="FortranFile.parse_do_fixed_format"))
     return reg
 
 
-TARGETS = [f"{UTIL}.find_in_workspace.add_children", f"{UTIL}.find_in_workspace"]
+TARGETS = [f"{UTIL}.find_in_workspace.add_children", f"{UTIL}.find_in_workspace", f"{PARSER}.FortranFile.parse_do_fixed_format"]
 
 
 # ------------------------------------------------------------------ finite tables and structure
@@ -243,8 +290,58 @@ def replay(obligation, model, rep):
     return {"confirmed": None}
 
 
+def do_label_small_scope():
+    """The real parse_do_fixed_format on every stack of up to 3 labels over two labels, every label, DO / non-DO scope."""
+    import itertools
+    from fortls.parsers.internal.parser import FortranFile
+    from fortls.constants import DO_TYPE_ID
+
+    class Sc:
+        def __init__(self, t):
+            self.t = t
+
+        def get_type(self, no_link=False):
+            return self.t
+
+    class Ast:
+        def __init__(self, t):
+            self.current_scope, self.closed = Sc(t), 0
+
+        def end_scope(self, ln, check=True):
+            self.closed += 1
+    ff = FortranFile.__new__(FortranFile)
+    for n in range(4):
+        for stack in itertools.product(["10", "20"], repeat=n):
+            for label in (None, "10", "20", "30"):
+                for t in (DO_TYPE_ID, DO_TYPE_ID + 1):
+                    a, st = Ast(t), list(stack)
+                    res = ff.parse_do_fixed_format("      continue", 5, a, label, st)
+                    keep = len(stack)
+                    if t == DO_TYPE_ID and label is not None:
+                        while keep > 0 and stack[keep - 1] == label:
+                            keep -= 1
+                    if st != list(stack[:keep]) or a.closed != len(stack) - keep or bool(res) != (a.closed > 0):
+                        return {"function": "FortranFile.parse_do_fixed_format", "block_id_stack": list(stack), "line_label": label,
+                                "current_scope_is_DO": t == DO_TYPE_ID, "stack_after": st, "scopes_closed": a.closed, "result": res,
+                                "expected_stack_after": list(stack[:keep]), "expected_scopes_closed": len(stack) - keep}
+    return None
+
+
 def search(func, tier, seed, obligation=""):
-    """find_in_workspace natively on a small object tree."""
+    """find_in_workspace natively on a small object tree; label-terminated DO loops on generated fixed-form programs."""
+    if func.endswith("parse_do_fixed_format"):
+        w = do_label_small_scope()
+        if w:
+            return w
+        from contracts import c04_gen
+        import random
+        for k in range(40):
+            text, expect, members = c04_gen.fixed_form_program(random.Random(seed * 977 + k))
+            w = c04_gen.check_program(text, expect, members, fname="g.f")
+            if w:
+                w["program"] = text
+                return w
+        return None
     from fortls.parsers.internal.utilities import find_in_workspace
     from replay.harness import Workspace, session
     ws = Workspace({"m.f90": "module Mod_A\n  integer :: alpha, Beta\ncontains\n  subroutine gamma()\n  end subroutine gamma\nend module Mod_A\n",
